@@ -530,6 +530,12 @@ func (s *sim) execPH(op Op) {
 }
 
 // deliverPH calls HandleProposedHeader and classifies how the call ended.
+type phLogEntry struct {
+	Step int
+	PH   tmconsensus.ProposedHeader
+	Res  tmconsensus.HandleProposedHeaderResult
+}
+
 // delivery is one message as it went over the wire (C10 replays the same
 // absolute messages in the crash run).
 type delivery struct {
@@ -552,6 +558,7 @@ func (s *sim) deliverPH(ph tmconsensus.ProposedHeader) []tmconsensus.HandlePropo
 	if !s.callOutcome(cr, pan, "HandleProposedHeader", fmt.Sprintf("h=%d r=%d", ph.Header.Height, ph.Round)) {
 		return nil
 	}
+	s.phLog = append(s.phLog, phLogEntry{Step: s.step, PH: ph, Res: res})
 	return []tmconsensus.HandleProposedHeaderResult{res}
 }
 
